@@ -1,26 +1,867 @@
-//! C01 - not built yet.
-use crate::engine::{PropertyInfo, RunCtx};
+//! C01 - every scan cycle ends in success or a value-dependent fault, never a crash.
+//!
+//! Domain: (a) `stgen` in its widest strict configuration, extended at text level by
+//! `c01/ext.rs` (standard functions at type extremes, bit strings, strings, date/time
+//! functions, conversions, REF_TO, 1-3-dim indices, faulting local / VAR_TEMP initialisers,
+//! EN/ENO, classes / methods with THIS and SUPER, task-associated FB instance, AT-bound
+//! variables); (b) token-level type-perturbing mutations of such programs (`c01/mutate.rs`).
+//! Acceptance is decided by the compiler itself (`TestHarness::from_source`).
+//! Oracle: `c01/oracle.rs` (exactly the property statement). Failures of mutated programs
+//! are matched against the signatures of OPEN known findings (`c01/sig.rs`).
+
+use std::sync::atomic::{AtomicU64, Ordering};
+use std::sync::{Mutex, OnceLock};
+
+use proptest::prelude::*;
+use proptest::strategy::ValueTree;
+use serde::{Deserialize, Serialize};
+use serde_json::json;
+
+use crate::engine::tape::{tape_strategy, Reader, Tape};
+use crate::engine::{catch, Probe, PropertyInfo, RunCtx};
+use crate::stgen::ast::*;
+use crate::stgen::print::{print_program, PrintOpts};
+use crate::stgen::{generate, GenConfig};
+
+#[path = "c01/ext.rs"]
+pub mod ext;
+#[path = "c01/handmade.rs"]
+mod handmade;
+#[path = "c01/mutate.rs"]
+pub mod mutate;
+#[path = "c01/oracle.rs"]
+pub mod oracle;
+#[path = "c01/sig.rs"]
+pub mod sig;
+
+use ext::T;
+use oracle::{CycleIn, Scalar, Write, XTrace};
 
 pub fn info() -> PropertyInfo {
     PropertyInfo {
         id: "C01",
         level: "exploration",
-        rule: "not built yet",
-        assumptions: &[],
-        workers_quick: 1,
-        workers_thorough: 1,
-        address_space_limit: 0,
-        watchdog_quick_s: 600,
-        watchdog_thorough_s: 3600,
+        rule: "cases = (a) stgen programs in the widest strict dial extended with standard functions at type extremes, bit-string shifts/rotations, string functions with out-of-range positions, TIME/DATE/TOD/DT(+L) functions at the representable limits, all checker-allowed *_TO_* conversions, REF_TO incl. NULL dereference, 1-3-dim subscripts at/beyond bounds, FUNCTION/METHOD locals and FB VAR_TEMP with faulting initialisers, EN/ENO, classes/FBs with THIS/SUPER, a task-associated FB instance, AT-bound variables; (b) 1-2 token-level type-perturbing mutations of such programs; x traces of 1-6 cycles with variable writes, direct-input writes and clock steps. A case counts when the compiler (TestHarness::from_source) accepts it; rejected programs are outside the domain and counted. non-trivial = accepted, >= 1 cycle executed, and the program contains a call, loop, CASE, subscript or boundary literal; distinct by SHA-256 of (source, trace)",
+        assumptions: &[
+            "harness built with overflow-checks and debug-assertions (the repository's dev/test profile): an arithmetic-overflow panic counts as a panic",
+            "execution deadline 2 s per cycle (normal: microseconds); ExecutionTimeout is a permitted budget fault; a cycle that returns later than 50x the deadline is reported",
+            "worker address space limited to 4 GiB; a worker killed by a signal (stack overflow, abort) is attributed to the journalled case",
+            "clock: Runtime::set_current_time with a saturating sum (Runtime::advance_time itself adds unchecked; an uptime beyond 292 years is not explored)",
+            "open known findings F4 F5 F6 F8 F23 F24 (+ those listed in known_findings.d/C01.json) are excluded by construction in (a) and recognised by error variant + syntactic shape of the faulting statement in (b)",
+        ],
+        workers_quick: 8,
+        workers_thorough: 16,
+        address_space_limit: 4 << 30,
+        watchdog_quick_s: 1200,
+        watchdog_thorough_s: 10800,
         run,
     }
 }
 
+/// Which known findings are open (decides the generator dials and the signatures in force).
+#[derive(Clone, Debug, Default)]
+pub struct Dials {
+    pub open: Vec<String>,
+}
+
+impl Dials {
+    pub fn is_open(&self, prefix: &str) -> bool {
+        self.open.iter().any(|k| k.starts_with(prefix))
+    }
+}
+
+static DIALS: OnceLock<Dials> = OnceLock::new();
+
+fn dials() -> Dials {
+    DIALS.get().cloned().unwrap_or_else(|| {
+        // helper subcommands: read the findings directly
+        let open = crate::engine::load_known_findings()
+            .into_iter()
+            .filter(|f| f.property == "C01" && f.status == "open")
+            .map(|f| f.key)
+            .collect();
+        Dials { open }
+    })
+}
+
+#[derive(Clone, Debug, Serialize, Deserialize)]
+pub struct Case {
+    #[serde(default = "empty_tape")]
+    pub prog_tape: Tape,
+    #[serde(default = "empty_tape")]
+    pub trace_tape: Tape,
+    #[serde(default = "empty_tape")]
+    pub ext_tape: Tape,
+    #[serde(default = "empty_tape")]
+    pub mut_tape: Tape,
+    #[serde(default)]
+    pub print_bits: u8,
+    /// "base" | "mutated"
+    #[serde(default)]
+    pub mode: String,
+    /// The text that is compiled (after extension and mutation). A replay file is judged
+    /// from `source` + `trace` alone, so it survives generator changes.
+    #[serde(default)]
+    pub source: String,
+    /// Text before mutation (mode "mutated").
+    #[serde(default)]
+    pub base_source: String,
+    #[serde(default)]
+    pub mutations: Vec<mutate::Applied>,
+    #[serde(default)]
+    pub trace: XTrace,
+    #[serde(default)]
+    pub features: Vec<String>,
+    #[serde(default)]
+    pub excluded: Vec<String>,
+}
+
+fn empty_tape() -> Tape {
+    Tape { data: vec![] }
+}
+
+fn gen_config(d: &Dials) -> GenConfig {
+    let mut cfg = GenConfig::strict_core();
+    cfg.max_stmts = 30;
+    cfg.max_cycles = 6;
+    cfg.features.pow = true;
+    // shapes of C01's own findings: generated as soon as the finding is no longer open
+    cfg.features.case_unsigned = !d.is_open("F3-");
+    cfg.features.case_enum = !d.is_open("F3-");
+    cfg.features.return_in_program = !d.is_open("F26-");
+    cfg
+}
+
+fn ext_config(d: &Dials) -> ext::ExtCfg {
+    ext::ExtCfg {
+        neg_shift_count: !d.is_open("F34-"),
+        non_ascii_strings: !d.is_open("F35-"),
+        int_pow_negative: !d.is_open("F23-"),
+        at_unsupported_types: !d.is_open("F33-"),
+        task_fb: !d.is_open("F7-"),
+        invalid_bcd: !d.is_open("F38-"),
+        string_to_char_any: !d.is_open("F39-"),
+        max_stmts: 14,
+    }
+}
+
+fn scalar_for(t: T, r: &mut Reader<'_>) -> Scalar {
+    let bits: u64 = match t {
+        T::Bool => r.flag() as u64,
+        T::Real => {
+            const V: [f32; 8] = [0.0, 1.0, -1.0, 3.0e38, -3.0e38, 1.0e-38, 0.5, 1.0e10];
+            V[r.pick(V.len())].to_bits() as u64
+        }
+        T::LReal => {
+            const V: [f64; 8] = [0.0, 1.0, -1.0, 1.0e308, -1.0e308, 1.0e-308, 0.5, 1.0e19];
+            V[r.pick(V.len())].to_bits()
+        }
+        T::Time | T::LTime => {
+            const V: [i64; 8] = [0, 1, -1, 1_000_000, i64::MAX, i64::MIN, 86_400_000_000_000, -5_000_000];
+            V[r.pick(V.len())] as u64
+        }
+        _ => {
+            let w = t.width();
+            let mask: u64 = if w >= 64 { u64::MAX } else { (1u64 << w) - 1 };
+            match r.weighted(&[4, 4, 2]) {
+                0 => [0u64, 1, 2, 3, 5, 10, 64][r.pick(7)] & mask,
+                1 => [mask, 1u64 << (w - 1), (1u64 << (w - 1)).wrapping_sub(1), mask - 1][r.pick(4)],
+                _ => r.u64() & mask,
+            }
+        }
+    };
+    // sign-extend narrow signed integers so that `bits as i64` is the value
+    Scalar {
+        ty: t.name().to_string(),
+        bits,
+    }
+}
+
+fn val_to_scalar(v: &Val) -> Option<Scalar> {
+    Some(match v {
+        Val::Bool(b) => Scalar {
+            ty: "BOOL".into(),
+            bits: *b as u64,
+        },
+        Val::Int(e, n) => Scalar {
+            ty: e.name().into(),
+            bits: *n as i64 as u64,
+        },
+        Val::Real(b) => Scalar {
+            ty: "REAL".into(),
+            bits: *b as u64,
+        },
+        Val::LReal(b) => Scalar {
+            ty: "LREAL".into(),
+            bits: *b,
+        },
+        Val::Time(n) => Scalar {
+            ty: "TIME".into(),
+            bits: *n as u64,
+        },
+        _ => return None,
+    })
+}
+
+/// Splice the extension into the printed base program.
+fn assemble(base: &str, x: &ext::ExtOut) -> String {
+    let lines: Vec<&str> = base.lines().collect();
+    let Some(h) = lines.iter().position(|l| l.trim() == "PROGRAM Main") else {
+        return base.to_string();
+    };
+    let Some(e) = (h..lines.len()).find(|&i| lines[i].trim() == "END_PROGRAM") else {
+        return base.to_string();
+    };
+    let v = (h + 1..e)
+        .filter(|&i| lines[i].trim() == "END_VAR")
+        .last()
+        .unwrap_or(h);
+    let mut out = String::new();
+    // ext POUs go first, but after a leading TYPE block of the base program
+    let mut start = 0;
+    if lines.first().map(|l| l.trim()) == Some("TYPE") {
+        if let Some(te) = lines.iter().position(|l| l.trim() == "END_TYPE") {
+            for l in &lines[..=te] {
+                out.push_str(l);
+                out.push('\n');
+            }
+            out.push('\n');
+            start = te + 1;
+        }
+    }
+    out.push_str(&x.prelude);
+    for l in &lines[start..=h] {
+        out.push_str(l);
+        out.push('\n');
+    }
+    out.push_str(&x.main_vars);
+    for l in &lines[h + 1..=v] {
+        out.push_str(l);
+        out.push('\n');
+    }
+    for s in &x.pre {
+        out.push_str("  ");
+        out.push_str(s);
+        out.push('\n');
+    }
+    for l in &lines[v + 1..e] {
+        out.push_str(l);
+        out.push('\n');
+    }
+    for s in &x.post {
+        out.push_str("  ");
+        out.push_str(s);
+        out.push('\n');
+    }
+    let has_conf = lines.iter().any(|l| l.trim() == "CONFIGURATION Conf");
+    for l in &lines[e..] {
+        if let (Some(fb), true) = (&x.task_fb, l.trim() == "PROGRAM Main : Main;") {
+            out.push_str("  TASK XT (INTERVAL := T#1ms, PRIORITY := 1);\n");
+            out.push_str(&format!("  PROGRAM Main : Main ({fb} WITH XT);\n"));
+            continue;
+        }
+        out.push_str(l);
+        out.push('\n');
+    }
+    if let (Some(fb), false) = (&x.task_fb, has_conf) {
+        out.push_str(&format!(
+            "\nCONFIGURATION XConf\nRESOURCE XRes ON CPU\n  TASK XT (INTERVAL := T#1ms, PRIORITY := 1);\n  PROGRAM Main : Main ({fb} WITH XT);\nEND_RESOURCE\nEND_CONFIGURATION\n"
+        ));
+    }
+    out
+}
+
+pub fn materialize(mut c: Case) -> Case {
+    if !c.source.is_empty() {
+        return c;
+    }
+    let d = dials();
+    let cfg = gen_config(&d);
+    let g = generate(&c.prog_tape, &c.trace_tape, &cfg);
+    let opts = PrintOpts {
+        full_parens: c.print_bits & 1 != 0,
+        ampersand: c.print_bits & 2 != 0,
+    };
+    let printed = print_program(&g.program, opts);
+    for (what, n) in &g.excluded {
+        for _ in 0..(*n).min(2) {
+            c.excluded.push(what.clone());
+        }
+    }
+    c.excluded.push("F8-implicit-conversion-at-assignment-or-binding (strict dial: every generated case)".into());
+    c.excluded.push("F6-recursive-call (acyclic call graph: every generated case)".into());
+    // ---- base variables the extension may use
+    let mut base_vars: Vec<(String, T, bool)> = Vec::new();
+    if let Some(m) = g.program.pou("Main") {
+        for v in &m.vars {
+            if let (Ty::Elem(e), Role::Data, VarKind::Local) = (&v.ty, v.role, v.kind) {
+                base_vars.push((v.name.clone(), T::from_elem(*e), !v.constant));
+            }
+        }
+    }
+    // ---- extension (3 cases in 4)
+    let mut xr_empty = false;
+    let x = if c.ext_tape.data.is_empty() {
+        xr_empty = true;
+        ext::ExtOut::default()
+    } else {
+        ext::Ext::new(&c.ext_tape, ext_config(&d)).generate(&base_vars)
+    };
+    let mut source = if xr_empty {
+        printed.source.clone()
+    } else {
+        assemble(&printed.source, &x)
+    };
+    c.features = x.features.clone();
+    c.excluded.extend(x.excluded.iter().cloned());
+    // ---- trace: stgen's writes + extension inputs
+    let mut trace: XTrace = Vec::new();
+    // the extension's inputs are drawn from the trace tape read backwards (stgen reads it
+    // forwards through a private reader), which keeps the two uses decorrelated
+    let rev = Tape {
+        data: c.trace_tape.data.iter().rev().copied().collect(),
+    };
+    let mut xr2 = Reader::new(&rev);
+    for ci in &g.trace {
+        let mut writes = Vec::new();
+        for w in &ci.writes {
+            if let Some(s) = val_to_scalar(&w.value) {
+                writes.push(Write::Var {
+                    instance: w.instance.clone(),
+                    var: w.var.clone(),
+                    value: s,
+                });
+            }
+        }
+        if !x.inputs.is_empty() {
+            let n = xr2.weighted(&[3, 3, 2]);
+            for _ in 0..n {
+                let (name, t) = x.inputs[xr2.pick(x.inputs.len())].clone();
+                writes.push(Write::Var {
+                    instance: "Main".into(),
+                    var: name,
+                    value: scalar_for(t, &mut xr2),
+                });
+            }
+        }
+        for di in &x.direct_inputs {
+            if xr2.chance(1, 2) {
+                let t = match di.cell {
+                    "BOOL" => T::Bool,
+                    "BYTE" => T::Byte,
+                    "WORD" => T::Word,
+                    "DWORD" => T::DWord,
+                    _ => T::LWord,
+                };
+                writes.push(Write::Direct {
+                    address: di.address.clone(),
+                    value: scalar_for(t, &mut xr2),
+                });
+            }
+        }
+        trace.push(CycleIn {
+            writes,
+            dt_ns: ci.dt_ns,
+        });
+    }
+    // ---- mutation
+    if c.mode == "mutated" {
+        c.base_source = source.clone();
+        let mut mr = Reader::new(&c.mut_tape);
+        let (m, applied) = mutate::mutate(&source, &mut mr);
+        source = m;
+        c.mutations = applied;
+    }
+    c.source = source;
+    c.trace = trace;
+    c
+}
+
+pub fn case_strategy(mode: &'static str) -> impl Strategy<Value = Case> {
+    (
+        tape_strategy(700),
+        tape_strategy(80),
+        prop_oneof![3 => tape_strategy(400), 1 => Just(Tape { data: vec![] })],
+        tape_strategy(24),
+        0u8..8,
+    )
+        .prop_map(move |(p, t, x, m, bits)| {
+            let print_bits = match bits {
+                0 => 1,
+                1 => 2,
+                2 => 3,
+                _ => 0,
+            };
+            // an empty ext tape means "no extension" (1 case in 4 is pure stgen)
+            materialize(Case {
+                prog_tape: p,
+                trace_tape: t,
+                ext_tape: x,
+                mut_tape: m,
+                print_bits,
+                mode: if mode == "mutated" { "mutated".into() } else { "base".into() },
+                source: String::new(),
+                base_source: String::new(),
+                mutations: vec![],
+                trace: vec![],
+                features: vec![],
+                excluded: vec![],
+            })
+        })
+}
+
+static ACCEPTED: AtomicU64 = AtomicU64::new(0);
+static REJECTED_BASE: AtomicU64 = AtomicU64::new(0);
+static BASE_TOTAL: AtomicU64 = AtomicU64::new(0);
+static COMPILE_PANICS: Mutex<Vec<String>> = Mutex::new(Vec::new());
+
+fn trace_text(trace: &XTrace) -> String {
+    let mut s = String::new();
+    for (k, c) in trace.iter().enumerate() {
+        let w: Vec<String> = c
+            .writes
+            .iter()
+            .map(|w| match w {
+                Write::Var {
+                    instance,
+                    var,
+                    value,
+                } => format!("{}.{} := {}", if instance.is_empty() { "G" } else { instance }, var, value.show()),
+                Write::Direct { address, value } => format!("{address} := {}", value.show()),
+            })
+            .collect();
+        s.push_str(&format!("  cycle {}: dt={}ns writes [{}]\n", k + 1, c.dt_ns, w.join("; ")));
+    }
+    s
+}
+
+/// Does the program text contain something beyond straight-line assignments of small
+/// values (rule of the non-trivial count)?
+fn interesting(source: &str) -> bool {
+    let toks = mutate::lex(source);
+    let mut prev_word = false;
+    for t in &toks {
+        let text = &source[t.start..t.end];
+        match t.kind {
+            mutate::K::Word => {
+                let u = text.to_ascii_uppercase();
+                if matches!(u.as_str(), "FOR" | "WHILE" | "REPEAT" | "CASE") {
+                    return true;
+                }
+                prev_word = !matches!(u.as_str(), "IF" | "ELSIF" | "UNTIL" | "AND" | "OR" | "XOR" | "NOT" | "MOD" | "THEN" | "TO" | "BY" | "OF" | "TASK" | "RETURN");
+            }
+            mutate::K::Op => {
+                if (text == "(" && prev_word) || text == "[" {
+                    return true;
+                }
+                prev_word = false;
+            }
+            mutate::K::TypedLit => {
+                if text.contains("32767") || text.contains("32768") || text.contains("127") || text.contains("255") || text.contains("65535") || text.contains("2147483647") || text.contains("4294967295") || text.contains("9223372036854775807") {
+                    return true;
+                }
+                prev_word = false;
+            }
+            mutate::K::Trivia => {}
+            _ => prev_word = false,
+        }
+    }
+    false
+}
+
+fn first_words(msg: &str) -> String {
+    // classify a compiler message by its code or first words (digits/offsets removed)
+    let line = msg.lines().next().unwrap_or("");
+    if let Some(i) = line.find("error[") {
+        return line[i..].chars().take(11).collect();
+    }
+    line.chars().filter(|c| !c.is_ascii_digit()).take(40).collect()
+}
+
+pub fn check_case(case: &Case, probe: &mut Probe) -> Result<(), String> {
+    let owned;
+    let c = if case.source.is_empty() {
+        owned = materialize(case.clone());
+        &owned
+    } else {
+        case
+    };
+    let d = dials();
+    let mode = if c.mode.is_empty() { "base" } else { c.mode.as_str() };
+    probe.label(format!("mode={mode}"));
+    for e in &c.excluded {
+        probe.excluded(e.clone());
+    }
+    if mode == "mutated" && c.mutations.is_empty() {
+        probe.label("mutated:no_site");
+    }
+    for m in &c.mutations {
+        probe.label(format!("mutation={}", m.kind));
+    }
+    let rep = oracle::run(&c.source, &c.trace);
+    if mode == "base" {
+        BASE_TOTAL.fetch_add(1, Ordering::Relaxed);
+    }
+    if !rep.accepted {
+        if let Some(p) = &rep.compile_panic {
+            probe.label(format!("{mode}:compile_panic"));
+            COMPILE_PANICS
+                .lock()
+                .unwrap()
+                .push(format!("{p}\n{}", c.source));
+            return Ok(());
+        }
+        probe.label(format!("{mode}:rejected"));
+        probe.label(format!("{mode}:rejected:{}", first_words(&rep.compile_error)));
+        if mode == "base" {
+            REJECTED_BASE.fetch_add(1, Ordering::Relaxed);
+            if let Ok(dir) = std::env::var("C01_DEBUG_DIR") {
+                let name = format!("{dir}/rej-{:016x}.st", crate::engine::digest64(c.source.as_bytes()));
+                let _ = std::fs::write(name, format!("(* {} *)\n{}", rep.compile_error, c.source));
+            }
+        }
+        return Ok(());
+    }
+    ACCEPTED.fetch_add(1, Ordering::Relaxed);
+    probe.label(format!("{mode}:accepted"));
+    for m in &c.mutations {
+        probe.label(format!("accepted_mutation={}", m.kind));
+    }
+    for f in &c.features {
+        probe.label(format!("feat:{f}"));
+    }
+    probe.label(format!("cycles={}", rep.ran_cycles));
+    match rep.fault {
+        Some(f) => probe.label(format!("fault={f}")),
+        None if rep.failure.is_none() => probe.label("fault=none"),
+        None => {}
+    }
+    if rep.ran_cycles >= 1 && interesting(&c.source) {
+        let mut key = c.source.as_bytes().to_vec();
+        key.extend_from_slice(serde_json::to_string(&c.trace).unwrap_or_default().as_bytes());
+        probe.nontrivial(&key);
+        if rep.fault.is_some() && c.source.len() < 6000 {
+            probe.sample(json!({"mode": mode, "fault": rep.fault, "cycles": rep.ran_cycles, "mutations": c.mutations, "source": c.source}));
+        }
+    }
+    let Some(f) = &rep.failure else {
+        return Ok(());
+    };
+    // ---- localise and match against the open findings
+    let loc = catch(|| oracle::locate_fault(&c.source, &c.trace)).ok().flatten();
+    let stmt = loc.and_then(|(s, e)| c.source.get(s as usize..(e as usize).min(c.source.len())));
+    let key = sig::match_known(&sig::SigInput {
+        failure: f,
+        source: &c.source,
+        stmt,
+        stmt_at: loc.map(|(s, _)| s as usize),
+        open: &|k| d.is_open(k),
+    });
+    // Signatures are in force for MUTATED programs only: in the base search the shapes of the
+    // open findings are excluded by construction, so there every failure is a violation.
+    if let (Some(k), true) = (key, mode == "mutated") {
+        if d.is_open(k) {
+            probe.label(format!("known:{k}"));
+            probe.known(k);
+            return Ok(());
+        }
+    }
+    let muts: Vec<String> = c
+        .mutations
+        .iter()
+        .map(|m| format!("{} `{}` -> `{}` (line {})", m.kind, m.from, m.to, m.line))
+        .collect();
+    Err(format!(
+        "{} [{}]\n--- statement executing when it was raised\n{}\n--- mutations\n{}\n--- trace\n{}--- source\n{}",
+        f.detail,
+        f.kind,
+        stmt.map(|s| s.lines().take(6).collect::<Vec<_>>().join("\n")).unwrap_or_else(|| "<not located>".into()),
+        if muts.is_empty() { "none".to_string() } else { muts.join("\n") },
+        trace_text(&c.trace),
+        c.source
+    ))
+}
+
 /// Helper subcommands (child processes of this check); None = not mine.
-pub fn helper(_args: &[String]) -> Option<i32> {
-    None
+pub fn helper(args: &[String]) -> Option<i32> {
+    match args.first().map(|s| s.as_str()) {
+        Some("c01-try") => {
+            // tpv c01-try <file> [cycles]: programs separated by lines "----"
+            let path = args.get(1)?;
+            let cycles: usize = args.get(2).and_then(|s| s.parse().ok()).unwrap_or(2);
+            let text = std::fs::read_to_string(path).ok()?;
+            crate::engine::install_quiet_panic_hook();
+            for (i, src) in text.split("\n----\n").enumerate() {
+                let trace: XTrace = (0..cycles)
+                    .map(|_| CycleIn {
+                        writes: vec![],
+                        dt_ns: 1_000_000,
+                    })
+                    .collect();
+                let rep = oracle::run(src, &trace);
+                let head = src.lines().find(|l| l.contains("(*#")).unwrap_or("").trim();
+                if !rep.accepted {
+                    println!(
+                        "[{i}] {head} REJECTED {}{}",
+                        rep.compile_error.lines().next().unwrap_or(""),
+                        rep.compile_panic.map(|p| format!(" COMPILE PANIC {p}")).unwrap_or_default()
+                    );
+                    continue;
+                }
+                match rep.failure {
+                    Some(f) => {
+                        let loc = catch(|| oracle::locate_fault(src, &trace)).ok().flatten();
+                        let stmt = loc.and_then(|(s, e)| src.get(s as usize..e as usize));
+                        let key = sig::match_known(&sig::SigInput { failure: &f, source: src, stmt, stmt_at: loc.map(|(s, _)| s as usize), open: &|k| dials().is_open(k) });
+                        println!("[{i}] {head} FAIL {} :: {} :: at `{}` :: sig {:?}", f.kind, f.detail, stmt.unwrap_or("?").lines().next().unwrap_or(""), key)
+                    }
+                    None => println!("[{i}] {head} ok fault={:?} cycles={}", rep.fault, rep.ran_cycles),
+                }
+            }
+            Some(0)
+        }
+        Some("c01-gen") => {
+            // tpv c01-gen <seed> [n] [base|mutated]: print generated cases and verdicts
+            let seed: u64 = args.get(1).and_then(|s| s.parse().ok()).unwrap_or(1);
+            let n: usize = args.get(2).and_then(|s| s.parse().ok()).unwrap_or(1);
+            let mode: &'static str = if args.get(3).map(|s| s.as_str()) == Some("mutated") {
+                "mutated"
+            } else {
+                "base"
+            };
+            let quiet = args.get(4).map(|s| s.as_str()) == Some("quiet");
+            crate::engine::install_quiet_panic_hook();
+            let mut runner = proptest::test_runner::TestRunner::new_with_rng(
+                proptest::test_runner::Config::default(),
+                proptest::test_runner::TestRng::from_seed(proptest::test_runner::RngAlgorithm::ChaCha, &{
+                    let mut s = [0u8; 32];
+                    s[..8].copy_from_slice(&seed.to_le_bytes());
+                    s
+                }),
+            );
+            let strat = case_strategy(mode);
+            for i in 0..n {
+                let c = strat.new_tree(&mut runner).ok()?.current();
+                let mut probe = Probe::default();
+                let res = check_case(&c, &mut probe);
+                if quiet {
+                    let acc = probe.labels.iter().any(|l| l.ends_with(":accepted"));
+                    let rej: Vec<&String> = probe.labels.iter().filter(|l| l.contains(":rejected:")).collect();
+                    match &res {
+                        Ok(()) => println!("[{i}] {} {:?} known={:?}", if acc { "accepted" } else { "rejected" }, rej, probe.known),
+                        Err(e) => println!("[{i}] FAIL {}", e.lines().take(4).collect::<Vec<_>>().join(" | ")),
+                    }
+                    continue;
+                }
+                println!("(* ======== case {i} ======== *)\n{}", c.source);
+                println!("(* mutations: {:?} *)", c.mutations);
+                println!("(* trace\n{}*)", trace_text(&c.trace));
+                match res {
+                    Ok(()) => println!("(* verdict: ok; labels {:?} *)", probe.labels),
+                    Err(e) => println!("(* verdict: FAIL {} *)", e.lines().take(10).collect::<Vec<_>>().join("\n")),
+                }
+            }
+            Some(0)
+        }
+        Some("c01-mkreplays") => Some(handmade::write_replays(args.get(1).map(|s| s.as_str()))),
+        Some("c01-child") => {
+            // tpv c01-child <file> <cycles>: run one program in this (expendable) process.
+            // exit 0 = every cycle returned; the parent looks at the exit status.
+            let path = args.get(1)?;
+            let cycles: usize = args.get(2).and_then(|s| s.parse().ok()).unwrap_or(1);
+            let src = std::fs::read_to_string(path).ok()?;
+            crate::engine::install_quiet_panic_hook();
+            // same stack as a worker's case thread
+            let h = std::thread::Builder::new()
+                .stack_size(8 << 20)
+                .spawn(move || {
+                    let trace: XTrace = (0..cycles).map(|_| CycleIn { writes: vec![], dt_ns: 1_000_000 }).collect();
+                    let rep = oracle::run(&src, &trace);
+                    if !rep.accepted {
+                        return 3;
+                    }
+                    match rep.failure {
+                        Some(f) => {
+                            eprintln!("{}", f.detail);
+                            4
+                        }
+                        None => 0,
+                    }
+                })
+                .ok()?;
+            Some(h.join().unwrap_or(5))
+        }
+        _ => None,
+    }
+}
+
+/// F6 probe: a recursive FUNCTION is accepted and kills the process. It cannot be replayed
+/// inside a worker (the worker would die), so it runs in an expendable child process.
+fn f6_probe(ctx: &mut RunCtx) {
+    if ctx.worker != 0 || ctx.only_replay.is_some() {
+        return;
+    }
+    let src = handmade::F6_RECURSION;
+    let open = ctx.is_open(sig::F6);
+    let case = json!({"source": src, "cycles": 1});
+    let dir = ctx.out_dir.clone();
+    ctx.enumerated("f6-recursion-child", &case, |probe| {
+        let path = dir.join("f6-recursion.st");
+        std::fs::write(&path, src).map_err(|e| format!("cannot write probe: {e}"))?;
+        let exe = std::env::current_exe().map_err(|e| e.to_string())?;
+        let out = std::process::Command::new(exe)
+            .arg("c01-child")
+            .arg(&path)
+            .arg("1")
+            .stdin(std::process::Stdio::null())
+            .stderr(std::process::Stdio::null())
+            .output()
+            .map_err(|e| format!("cannot spawn child: {e}"))?;
+        use std::os::unix::process::ExitStatusExt;
+        probe.label("f6-probe");
+        match (out.status.code(), out.status.signal()) {
+            (Some(0), _) => Ok(()), // returned (a budget / depth fault): fine
+            (Some(3), _) => {
+                probe.label("f6-probe:rejected_by_compiler");
+                Ok(())
+            }
+            (Some(4), _) => Err(format!("recursive FUNCTION: a cycle failed the oracle\n{src}")),
+            (code, sig) => {
+                if open {
+                    probe.known(sig::F6);
+                    Ok(())
+                } else {
+                    Err(format!(
+                        "recursive FUNCTION: the process died (exit {code:?}, signal {sig:?}) instead of reporting a fault\n{src}"
+                    ))
+                }
+            }
+        }
+    });
+}
+
+/// Boundary literals of a type for the conversion grid.
+fn grid_literals(t: T) -> Vec<String> {
+    if let Some(e) = t.elem() {
+        let (lo, hi) = e.int_range();
+        let mut v = vec![lo, hi, 0, 1, hi / 2 + 1, hi - 1];
+        if lo < 0 {
+            v.push(-1);
+            v.push(lo + 1);
+        }
+        v.sort();
+        v.dedup();
+        return v.into_iter().map(|n| ext::int_lit(t, n)).collect();
+    }
+    let s = |xs: &[&str]| xs.iter().map(|x| x.to_string()).collect::<Vec<_>>();
+    match t {
+        T::Bool => s(&["TRUE", "FALSE"]),
+        T::Real => s(&["REAL#0.0", "REAL#-1.5", "REAL#0.5", "REAL#2.5", "REAL#3.0E38", "REAL#-3.0E38", "REAL#1.0E10", "REAL#255.5", "REAL#-0.5"]),
+        T::LReal => s(&["LREAL#0.0", "LREAL#-1.5", "LREAL#0.5", "LREAL#2.5", "LREAL#1.0E308", "LREAL#-1.0E308", "LREAL#1.0E19", "LREAL#9.3E18", "LREAL#4294967295.5"]),
+        T::Byte => s(&["BYTE#16#0", "BYTE#16#7F", "BYTE#16#80", "BYTE#16#FF", "BYTE#16#99"]),
+        T::Word => s(&["WORD#16#0", "WORD#16#7FFF", "WORD#16#8000", "WORD#16#FFFF", "WORD#16#9999"]),
+        T::DWord => s(&["DWORD#16#0", "DWORD#16#7FFFFFFF", "DWORD#16#80000000", "DWORD#16#FFFFFFFF", "DWORD#16#7F800000", "DWORD#16#99999999"]),
+        T::LWord => s(&["LWORD#16#0", "LWORD#16#7FFFFFFFFFFFFFFF", "ULINT_TO_LWORD(ULINT#9223372036854775807 + ULINT#1)", "ULINT_TO_LWORD(ULINT#9223372036854775807 + ULINT#9223372036854775807 + ULINT#1)", "LWORD#16#7FF0000000000000", "LWORD#16#999999999999999"]),
+        T::Time => s(&["T#0ms", "T#1ns", "T#-1ns", "T#106751d", "T#-106751d", "T#25h"]),
+        T::LTime => s(&["LTIME#0ms", "LTIME#1ns", "LTIME#-1ns", "LTIME#106751d", "LTIME#-106751d"]),
+        T::Date => s(&["D#1970-01-01", "D#9999-12-31", "D#0001-01-01", "D#2106-02-07", "D#1969-12-31"]),
+        T::Tod => s(&["TOD#00:00:00", "TOD#23:59:59.999", "TOD#12:30:15"]),
+        T::Dt => s(&["DT#1970-01-01-00:00:00", "DT#9999-12-31-23:59:59", "DT#0001-01-01-00:00:00", "DT#2106-02-07-06:28:15", "DT#1969-12-31-23:59:59"]),
+        T::LDate => s(&["LDATE#1970-01-01", "LDATE#2262-04-11", "LDATE#1677-09-22"]),
+        T::LTod => s(&["LTOD#00:00:00", "LTOD#23:59:59.999999999"]),
+        T::Ldt => s(&["LDT#1970-01-01-00:00:00", "LDT#2262-04-11-23:47:16", "LDT#1677-09-22-00:00:00", "LDT#1969-12-31-23:59:59"]),
+        T::Str => s(&["'a'"]),
+        T::WStr => s(&["\"a\""]),
+        T::Char => s(&["CHAR#'a'", "CHAR#'~'"]),
+        T::WChar => s(&["WCHAR#\"a\""]),
+        _ => vec![],
+    }
+}
+
+/// Enumerated grid: every conversion the checker allows x the boundary values of its source
+/// type, in each spelling (`S_TO_D`, `TO_D`, and for REAL -> integer `TRUNC_D`, `S_TRUNC_D`),
+/// one statement per program. The random search reaches a given (pair, extreme operand)
+/// only a few times per run; the grid reaches each exactly once per run.
+fn conversion_grid(ctx: &mut RunCtx) {
+    if ctx.only_replay.is_some() {
+        return;
+    }
+    let mut idx = 0usize;
+    for src in ext::ALL {
+        for dst in ext::ALL {
+            if !ext::conversion_allowed(src, dst) {
+                continue;
+            }
+            let mut spellings = vec![format!("{}_TO_{}", src.name(), dst.name()), format!("TO_{}", dst.name())];
+            if src.is_real() && dst.is_int() {
+                spellings.push(format!("TRUNC_{}", dst.name()));
+                spellings.push(format!("{}_TRUNC_{}", src.name(), dst.name()));
+            }
+            for lit in grid_literals(src) {
+                for f in &spellings {
+                    idx += 1;
+                    if idx % ctx.nworkers.max(1) != ctx.worker {
+                        continue;
+                    }
+                    let source = format!(
+                        "PROGRAM Main\nVAR\n  s : {} := {};\n  d : {};\nEND_VAR\n  d := {}(s);\nEND_PROGRAM\n",
+                        src.name(), lit, dst.name(), f
+                    );
+                    let case = Case {
+                        prog_tape: empty_tape(),
+                        trace_tape: empty_tape(),
+                        ext_tape: empty_tape(),
+                        mut_tape: empty_tape(),
+                        print_bits: 0,
+                        mode: "base".into(),
+                        source,
+                        base_source: String::new(),
+                        mutations: vec![],
+                        trace: vec![CycleIn { writes: vec![], dt_ns: 1_000_000 }],
+                        features: vec![format!("grid:{}_TO_{}", src.name(), dst.name())],
+                        excluded: vec![],
+                    };
+                    let j = serde_json::to_value(&case).unwrap_or(serde_json::Value::Null);
+                    ctx.enumerated("case", &j, |probe| {
+                        probe.label("grid");
+                        check_case(&case, probe)
+                    });
+                }
+            }
+        }
+    }
 }
 
 fn run(ctx: &mut RunCtx) {
-    ctx.inconclusive("check not built yet");
+    let open: Vec<String> = ctx
+        .findings
+        .iter()
+        .filter(|f| f.status == "open")
+        .map(|f| f.key.clone())
+        .collect();
+    let _ = DIALS.set(Dials { open });
+    let tier = ctx.tier;
+    // replay files carry search = "case"
+    ctx.search("case", case_strategy("base"), 0, check_case);
+    f6_probe(ctx);
+    conversion_grid(ctx);
+    ctx.search("base", case_strategy("base"), tier.pick(4_000, 100_000), check_case);
+    ctx.search("mutated", case_strategy("mutated"), tier.pick(8_000, 200_000), check_case);
+
+    let total = BASE_TOTAL.load(Ordering::Relaxed);
+    let rejected = REJECTED_BASE.load(Ordering::Relaxed);
+    if ctx.only_replay.is_none() && total > 50 && rejected * 20 > total {
+        ctx.inconclusive(format!(
+            "{rejected} of {total} unmutated generated programs were rejected by the compiler (> 5 %): the generator no longer matches the accepted language"
+        ));
+    }
+    let panics = COMPILE_PANICS.lock().unwrap().clone();
+    if !panics.is_empty() {
+        ctx.note(format!(
+            "{} program(s) made the COMPILER panic (outside C01's quantifier 'programs the compiler accepts'; reported for C12/C13): first: {}",
+            panics.len(),
+            panics[0].lines().next().unwrap_or("")
+        ));
+        let _ = std::fs::write(ctx.out_dir.join(format!("compile-panic-{}.st", ctx.worker)), &panics[0]);
+    }
 }
